@@ -31,6 +31,14 @@ Section Body.
     | _, _, _ => false
     end.
 
+  (* record fields followed by one trailing item (SArrOpt with its optional item present) *)
+  Fixpoint conf_sl_tail (fs : slist) (rs : list rule) (l : list val) (o : schema) (x : val) {struct fs} : bool :=
+    match fs, rs, l with
+    | SNil, [ro], [] => rec o ro x
+    | SCons s t, r :: rt, v :: vt => rec s r v && conf_sl_tail t rt vt o x
+    | _, _, _ => false
+    end.
+
   (* map-struct fields: every written field is listed in the rule and its value conforms *)
   Fixpoint conf_kl (fs : klist) (rfs : list (N * bool * rule)) (l : list (option val)) {struct fs} : bool :=
     match fs, l with
@@ -75,8 +83,10 @@ Section Body.
         end
     | SArrOf _ s', RArrOf lo r', VList l => (lo <=? len l) && forallb (rec s' r') l
     | SSetOf s', RSet lo r', VList l => (lo <=? len l) && forallb (rec s' r') l
-    | SMapOf _ _ k v', RMapOf lo rk rv, VMap l =>
-        (lo <=? len l) && forallb (fun kv => rec k rk (fst kv) && rec v' rv (snd kv)) l
+    | SMapOf _ ord k v', RMapOf lo rk rv, VMap l =>
+        (lo <=? len l) && forallb (fun kv => rec k rk (fst kv) && rec v' rv (snd kv)) l &&
+        (* a Vec-backed map (Mint, Redeemers, PlutusMap) may hold the same key twice; a CBOR map may not *)
+        (match ord with KMulti => nodupb (map (fun kv => enc k (fst kv)) l) | _ => true end)
     | SNullable _, RNull, VNull => true
     | SNullable s', _, v' => match v' with VNull => false | _ => rec s' r v' end
     | STag t (SArr (SCons (SUint _) (SCons (SUint _) SNil))), RRatio unit, VList [VNat n; VNat d] =>
@@ -88,6 +98,8 @@ Section Body.
     | SInBytes s', RCborIn r', v' => rec s' r' v'
     | STagChoice alts, RTag u r', VAlt i v' =>
         match cnth alts i with Some (d, s') => (d =? u) && rec s' r' v' | None => false end
+    | SArrOpt fs o, RArr rs, VAlt O (VList l) => conf_sl fs rs l
+    | SArrOpt fs o, RArr rs, VAlt (S O) (VList (x :: l)) => conf_sl_tail fs rs l o x
     | SArrAny s', RArrAny lo r', VAlt i (VList l) =>
         (match i with O => true | _ => negb (is_nil l) end) && (lo <=? len l) && forallb (rec s' r') l
     | _, _, _ => false
